@@ -35,24 +35,30 @@ TOpData ==
                    [] E.op = "rename" -> "pub-renamed-a-final-file"
                    [] OTHER -> "pub-touched-a-final-file")
      ELSE CASE E.op = "open" /\ ~E.creat ->
-                 IF Ok THEN Refuse("pub-reopened-an-existing-tmp-file")
+                 \* (a probe may find the tmp. file a dead process left behind)
+                 IF Ok /\ fst[E.j].st = "orphan" THEN UNCHANGED <<vars, ovars>> /\ Adv
+                 ELSE IF Ok THEN Refuse("pub-reopened-an-existing-tmp-file")
                  ELSE (IF fst[E.j].st = "none" THEN ProbeTmp(E.j) ELSE UNCHANGED vars /\ TRUE) /\ Adv /\ UNCHANGED ovars
             [] E.op = "open" /\ E.creat ->
-                 IF fst[E.j].st # "none" THEN Refuse("pub-created-a-tmp-file-that-exists")
+                 IF fst[E.j].st = "orphan" /\ ~Ok THEN UNCHANGED <<vars, ovars>> /\ Adv     \* exclusive create: the name is taken
+                 ELSE IF fst[E.j].st \notin {"none", "orphan"} THEN Refuse("pub-created-a-tmp-file-that-exists")
                  ELSE CreateTmp(E.j, Ok) /\ Adv /\ UNCHANGED ovars
             [] E.op \in {"pwrite", "write", "ftruncate"} ->
-                 IF fst[E.j].st # "open" THEN Refuse("pub-wrote-to-a-closed-file")
+                 IF fst[E.j].st = "orphan" THEN Refuse("pub-wrote-to-a-tmp-file-of-a-dead-session")
+                 ELSE IF fst[E.j].st # "open" THEN Refuse("pub-wrote-to-a-closed-file")
                  ELSE PWrite(E.j, Ok) /\ Adv /\ UNCHANGED ovars
             [] E.op = "close" ->
-                 IF fst[E.j].st # "open" THEN Refuse("pub-closed-twice")
+                 IF fst[E.j].st = "orphan" THEN UNCHANGED <<vars, ovars>> /\ Adv      \* the descriptor of a probe
+                 ELSE IF fst[E.j].st # "open" THEN Refuse("pub-closed-twice")
                  ELSE CloseFd(E.j, Ok) /\ Adv /\ UNCHANGED ovars
             [] E.op = "rename" ->
                  IF E.cls2 # "final" \/ E.j2 # E.j THEN Refuse("pub-renamed-to-a-wrong-name")
+                 ELSE IF fst[E.j].st = "orphan" THEN Refuse("pub-published-a-tmp-file-of-a-dead-session")
                  ELSE IF fst[E.j].st = "open" THEN Refuse("pub-renamed-before-close")
                  ELSE IF fst[E.j].st # "closed" THEN Refuse("pub-renamed-a-missing-file")
                  ELSE Rename(E.j, Ok) /\ Adv /\ UNCHANGED ovars
             [] E.op = "unlink" ->
-                 IF fst[E.j].st \notin {"open", "closed"} THEN Refuse("pub-removed-a-missing-file")
+                 IF fst[E.j].st \notin {"open", "closed", "orphan"} THEN Refuse("pub-removed-a-missing-file")
                  ELSE RemoveTmp(E.j, Ok) /\ Adv /\ UNCHANGED ovars
             [] OTHER -> Refuse("pub-unexpected-operation-on-a-data-file")
 
@@ -64,12 +70,12 @@ PName == CASE E.op = "open" /\ ~E.creat -> "Probe"
            [] E.op = "unlink" -> "Remove"
            [] OTHER -> "?"
 PropsEnabled(name) ==
-  CASE name = "Probe" -> pst.st = "none" /\ ~Ok
-    [] name = "Create" -> pst.st = "none"
+  CASE name = "Probe" -> (pst.st = "none" /\ ~Ok) \/ pst.st = "orphan"
+    [] name = "Create" -> pst.st = "none" \/ (pst.st = "orphan" /\ ~Ok)      \* exclusive create: the name is taken
     [] name = "PWrite" -> pst.st = "open"
-    [] name = "Close" -> pst.st = "open"
+    [] name = "Close" -> pst.st \in {"open", "orphan"}
     [] name = "Rename" -> pst.st = "closed" /\ E.cls2 = "props"
-    [] name = "Remove" -> pst.st \in {"open", "closed"}
+    [] name = "Remove" -> pst.st \in {"open", "closed", "orphan"}
     [] OTHER -> FALSE
 TOpProps ==
   /\ E.cls \in {"props", "tmpprops"}
@@ -94,6 +100,8 @@ TCall ==
        [] E.phase = "end" -> CallEnd(E.resp) /\ Adv /\ UNCHANGED ovars
        [] OTHER -> UNCHANGED <<vars, ovars>> /\ Adv
 TKill == E.ev = "kill" /\ Crash /\ Adv /\ UNCHANGED ovars
+TRestart == E.ev = "restart" /\ (IF crashed = 1 THEN Restart /\ Adv /\ UNCHANGED ovars
+                                 ELSE Rej({"harness-restart-of-a-live-process"}) /\ UNCHANGED <<vars, ovars>>)
 TExit == E.ev = "exit" /\ UNCHANGED <<vars, ovars>> /\ Adv
 
 (***************************************************************************)
@@ -107,7 +115,8 @@ FileNotes(fs) ==
         ELSE Names({
           <<"pub-final-file-unreadable", ~f.ok>>,
           <<"pub-final-file-holds-values-never-written", f.ok /\ (f.bad # 0 \/ ~SubsetRuns(Pairs(f.data), w))>>,
-          <<"C02-final-file-incomplete", f.ok /\ ~Faulted /\ Pairs(f.data) # w>>,
+          \* (after a kill `want` still holds what the dead process was about to write: completeness is then judged by acc at the end)
+          <<"C02-final-file-incomplete", f.ok /\ ~Faulted /\ crashed # 2 /\ Pairs(f.data) # w>>,
           <<"C07-fill-outside-continuous-mode", f.ok /\ cfg.mode # "contU" /\ f.fill # <<>>>>}))
        \cup FileNotes(Tail(fs))
 
@@ -135,15 +144,15 @@ EndNotes(datanow) ==
          lost /\ c # 0 /\ nextw # {} /\ calls[firstnext].resp = "ok" /\ (c \in WriteCalls => calls[c].resp = "ok")>>,
        <<"C10-writer-continued-after-a-reported-failure",
          lost /\ c # 0 /\ \E i \in WriteCalls : calls[i].resp = "err" /\ \E k \in WriteCalls : k > i /\ calls[k].resp = "ok">>,
-       <<"C02-accepted-samples-unreadable-after-clean-close", lost /\ ~crashed /\ flt = 0>>,
-       <<"C02-tmp-file-left-after-clean-close", flt = 0 /\ ~crashed /\ Tmps # {}>>})
+       <<"C02-accepted-samples-unreadable-after-clean-close", lost /\ crashed # 1 /\ flt = 0>>,
+       <<"C02-tmp-file-left-after-clean-close", flt = 0 /\ crashed # 1 /\ Tmps # {}>>})
 
 TSnap ==
   /\ E.ev = "snap" /\ UNCHANGED <<vars, rseen>>
   /\ obs' = NewObs(E.files)
   /\ AdvNote(Names({
         <<"pub-final-names-differ-from-the-protocol-state", SeqSet(E.fin) # Finals>>,
-        <<"pub-tmp-names-differ-from-the-protocol-state", SeqSet(E.tmp) # Tmps>>,
+        <<"pub-tmp-names-differ-from-the-protocol-state", SeqSet(E.tmp) # Tmps \cup Orphans>>,
         <<"pub-final-file-changed-after-publication", E.changed # <<>>>>,
         <<"C02-properties-file-visible-while-incomplete", E.props \in {"unreadable", "partial"}>>,
         <<"C02-properties-file-state", (E.props = "ok") # (pst.st = "final")>>})
@@ -170,7 +179,7 @@ TLs == /\ E.ev = "ls" /\ UNCHANGED <<vars, ovars>>
                          <<"C02-listing-shows-a-tmp-file", E.ok /\ E.tmpseen>>,
                          <<"C02-listing-differs-from-the-finalized-files", E.ok /\ pst.st = "final" /\ SeqSet(E.fin) # Finals>>}))
 
-TOther == /\ E.ev \notin {"op", "inject", "call", "kill", "exit", "snap", "rpass", "ls"} /\ Refuse("unknown-event")
+TOther == /\ E.ev \notin {"op", "inject", "call", "kill", "restart", "exit", "snap", "rpass", "ls"} /\ Refuse("unknown-event")
 \* an event that none of the clauses above can take (protocol actions are total through Refuse, brackets may be ill-formed)
 TStuck == /\ E.ev = "call"
           /\ ~(\/ E.phase \notin {"begin", "end"}
@@ -178,7 +187,7 @@ TStuck == /\ E.ev = "call"
                \/ (E.phase = "end" /\ (IF calls = <<>> THEN FALSE ELSE calls[Len(calls)].resp = "pending") /\ Alive))
           /\ Refuse("harness-call-brackets")
 
-TNext == \/ HasEvent /\ (TOp \/ TInject \/ TCall \/ TKill \/ TExit \/ TSnap \/ TRpass \/ TLs \/ TOther \/ TStuck)
+TNext == \/ HasEvent /\ (TOp \/ TInject \/ TCall \/ TKill \/ TRestart \/ TExit \/ TSnap \/ TRpass \/ TLs \/ TOther \/ TStuck)
          \/ Finish /\ UNCHANGED <<vars, ovars>>
 TSpec == TInit /\ [][TNext]_allvars
 TraceInvariant == Running => (TypeOK /\ FinalComplete /\ PropsPublishedComplete)
